@@ -1,0 +1,12 @@
+// +build verif
+
+package badger
+
+import "time"
+
+// VerifSetNonceExpire overrides the nonce freshness window of this store. It
+// only exists in builds with the "verif" tag, for the runtime-verification
+// harness.
+func (s *badgerStore) VerifSetNonceExpire(d time.Duration) {
+	s.nonceExpire = d
+}
